@@ -465,15 +465,102 @@ def make_namespace(sched):
             self.shutdown(wait=True)
             return False
 
+    import threading as _real_threading
+
+    class Lock:
+        """threading.Lock under the owned schedule (a change to the library may well introduce one)."""
+
+        def __init__(self):
+            self._owner = None
+
+        def acquire(self, blocking=True, timeout=-1):
+            sched.yield_point('lock.acquire')
+            if self._owner is not None:
+                if not blocking:
+                    return False
+                if timeout is not None and timeout >= 0:
+                    if not sched.timed_wait(lambda: self._owner is None, 'lock.acquire'):
+                        return False
+                else:
+                    sched.block_until(lambda: self._owner is None, 'lock.acquire')
+            self._owner = _real_threading.get_ident()
+            return True
+
+        def release(self):
+            self._owner = None
+            sched.yield_point('lock.release')
+
+        def locked(self):
+            return self._owner is not None
+
+        def __enter__(self):
+            self.acquire()
+            return self
+
+        def __exit__(self, *exc):
+            self.release()
+            return False
+
+    class RLock(Lock):
+        def __init__(self):
+            super().__init__()
+            self._count = 0
+
+        def acquire(self, blocking=True, timeout=-1):
+            if self._owner == _real_threading.get_ident():
+                self._count += 1
+                return True
+            ok = super().acquire(blocking, timeout)
+            if ok:
+                self._count = 1
+            return ok
+
+        def release(self):
+            self._count -= 1
+            if self._count == 0:
+                super().release()
+
+    class Event:
+        def __init__(self):
+            self._flag = False
+
+        def is_set(self):
+            return self._flag
+
+        def set(self):
+            self._flag = True
+            sched.yield_point('event.set')
+
+        def clear(self):
+            self._flag = False
+
+        def wait(self, timeout=None):
+            sched.yield_point('event.wait')
+            if not self._flag:
+                if timeout is None:
+                    sched.block_until(lambda: self._flag, 'event.wait')
+                else:
+                    sched.timed_wait(lambda: self._flag, 'event.wait')
+            return self._flag
+
+    class _Threading:
+        """Stand-in for the name `threading`: owned primitives, everything else from the real module."""
+
+        def __getattr__(self, name):
+            return getattr(_real_threading, name)
+    _threading = _Threading()
+    _threading.Thread, _threading.Lock, _threading.RLock, _threading.Event = Thread, Lock, RLock, Event
+
     ThreadPoolExecutor.instances = []
     futures = types.SimpleNamespace(ThreadPoolExecutor=ThreadPoolExecutor, Executor=Executor, Future=Future,
                                     CancelledError=CancelledError,
                                     ProcessPoolExecutor=None)
     ns = {
         'queue': types.SimpleNamespace(Queue=Queue, LifoQueue=LifoQueue, Empty=Empty, Full=Full),
-        'threading': types.SimpleNamespace(Thread=Thread),
+        'threading': _threading,
         'concurrent': types.SimpleNamespace(futures=futures),
     }
+    ns['__lock_types__'] = (Lock, RLock)
     return ns, ThreadPoolExecutor
 
 
@@ -487,9 +574,18 @@ class Patched:
         self.saved = {}
 
     def __enter__(self):
+        import threading
+        lock_cls, rlock_cls = self.ns.pop('__lock_types__')
         for k, v in self.ns.items():
             self.saved[k] = getattr(self.pu, k)
             setattr(self.pu, k, v)
+        # locks that the module created at import time (module-level state a change may introduce) are real OS locks:
+        # a logical thread that is switched out while holding one would block the whole schedule - own them too
+        real = {type(threading.Lock()): lock_cls, type(threading.RLock()): rlock_cls}
+        for k, v in list(vars(self.pu).items()):
+            if type(v) in real and k not in self.saved:
+                self.saved[k] = v
+                setattr(self.pu, k, real[type(v)]())
         return self
 
     def __exit__(self, *exc):
